@@ -71,7 +71,16 @@ fn observe_ledger(text: &str, evals: &[&str]) -> String {
 fn observe_import(yaml: &str, file: &str, data: &[u8], fmt: Format) -> String {
     let set = match import::config::load_from_yaml(yaml.as_bytes()) { Ok(s) => s, Err(e) => return format!("config error {}", e) };
     let entry = match set.select(Path::new(file)) { Ok(Some(e)) => e, Ok(None) => return "no config".into(), Err(e) => return format!("select error {}", e) };
-    let txns = match import::import(data, fmt, &entry) { Ok(t) => t, Err(e) => return format!("import error {}", e) };
+    let txns = match import::import(data, fmt, &entry) {
+        Ok(t) => t,
+        Err(e) => {
+            // the whole error chain, as the CLI prints it ("Caused by ..")
+            let mut s = format!("import error {}", e);
+            let mut cur = std::error::Error::source(&e);
+            while let Some(c) = cur { s.push_str(&format!(" / caused by {}", c)); cur = c.source(); }
+            return s;
+        }
+    };
     let mut out = String::new();
     let ctx = syntax::display::DisplayContext::default();
     for t in &txns {
@@ -156,6 +165,17 @@ pub fn run(_args: &[String]) -> i32 {
         let again = observe_import(csv_yaml, "r.csv", csv.as_bytes(), Format::Csv);
         if again != first {
             bad.push((format!("config:\n{}\ncsv:\n{}", csv_yaml, csv), format!("two runs differ: {}", first_difference(&first, &again))));
+            break;
+        }
+    }
+    // a config with several invalid fields: which one is reported must not depend on the hash seed
+    let bad_cfg = "path: r.csv\nencoding: UTF-8\naccount: Acct:Main\naccount_type: asset\ncommodity: CHF\nformat:\n  date: \"%Y-%m-%d\"\n  fields:\n    date: Date\n    payee:\n      template: \"{unclosed\"\n    note:\n      template: \"{also {bad\"\n    category:\n      template: \"}}{\"\n    amount: Amount\n";
+    evaluated += 1;
+    let first = observe_import(bad_cfg, "r.csv", csv.as_bytes(), Format::Csv);
+    for _ in 1..REPEAT {
+        let again = observe_import(bad_cfg, "r.csv", csv.as_bytes(), Format::Csv);
+        if again != first {
+            bad.push((format!("config:\n{}\ncsv:\n{}", bad_cfg, csv), format!("two runs differ: {}", first_difference(&first, &again))));
             break;
         }
     }
